@@ -282,6 +282,8 @@ def _for_symbolic(I, s, st, skind, seq, ctx, elem_val=None, spec_iter_text=None,
         p_empty = Prefix("seq", seq=z3.Empty(vm.SeqV))
         p_all = Prefix("seq", seq=seq)
     else:
+        for f in folds:
+            U.axioms.append(f.tfn(seq, 0))        # the fold over the empty prefix (defining equation)
         p_empty = Prefix("tuple", t=seq, n=z3.IntVal(0))
         p_all = Prefix("tuple", t=seq, n=(n_total if n_total is not None else vm.tlen(seq)))
     # (1) invariant on entry
@@ -319,7 +321,11 @@ def _for_symbolic(I, s, st, skind, seq, ctx, elem_val=None, spec_iter_text=None,
         p_pre = Prefix("tuple", t=seq, n=i)
         p_next = Prefix("tuple", t=seq, n=i + 1)
     if spec is not None and spec.elem_facts is not None:
-        it.pc += list(spec.elem_facts(I, it, x))
+        import inspect as _insp2
+        if skind == "tuple" and len(_insp2.signature(spec.elem_facts).parameters) == 4:
+            it.pc += list(spec.elem_facts(I, it, x, i))          # the arbitrary index as well
+        else:
+            it.pc += list(spec.elem_facts(I, it, x))
     if inv is not None:
         it.pc.append(inv(I, it, p_pre))
     heap_before = {k: dict(h.fields) for k, h in it.heap.items()}
